@@ -204,6 +204,8 @@ class Body:
         self._defs = None
         self._calls = None
         self._expr_cache = {}
+        self._corr = None
+        self.hidden = False
 
     # ---- naming
     def lname(self, l):
@@ -305,11 +307,61 @@ class Body:
     def normal_blocks(self):
         return [i for i, b in enumerate(self.blocks) if not b["cleanup"]]
 
+    def _corr_tables(self):
+        """For inlined helpers: (block -> (ret_local, 'Ok'|'Err')) for definitions of the helper's return place, and
+        (switch block -> (ret_local, {edge label: 'Ok'|'Err'})) for the anchor's test of that Result."""
+        if self._corr is not None:
+            return self._corr
+        defs_tag, sw_tag = {}, {}
+        for c in self.j.get("corr", []):
+            ret, dest = c["ret"], c["dest"]
+            for d in self.defs().get(ret, []):
+                tag = None
+                if d[0] == "assign":
+                    rv = d[3]
+                    if rv.get("agg") == "adt" and rv.get("variant") in ("Ok", "Err"):
+                        tag = rv["variant"]
+                elif d[0] == "call" and d[2].fn == "core::ops::try_trait::FromResidual::from_residual":
+                    tag = "Err"
+                if tag:
+                    defs_tag[d[1]] = (ret, tag)
+            for bb in self.normal_blocks():
+                if self.blocks[bb]["term"]["k"] != "switch":
+                    continue
+                si = self.switch_info(bb)
+                if not si or si["kind"] != "variant":
+                    continue
+                cond = si["cond"]
+                # Try::branch(dest) / discriminant(dest)
+                x = cond
+                n = 0
+                while x[0] in ("ref", "deref", "call") and n < 6:
+                    n += 1
+                    if x[0] == "call":
+                        if x[1].fn != "core::ops::try_trait::Try::branch" or not x[2]:
+                            break
+                        x = x[2][0]
+                    else:
+                        x = x[1]
+                if x[0] == "phi" and x[1] == ret or (x[0] in ("local", "phi") and x[1] in (ret, dest)):
+                    m = {}
+                    for (t, lab, mean) in si["edges"]:
+                        ms = mean if isinstance(mean, tuple) else (mean,)
+                        if all(y in ("Ok", "Continue") for y in ms) and ms:
+                            m[lab] = "Ok"
+                        elif all(y in ("Err", "Break") for y in ms) and ms:
+                            m[lab] = "Err"
+                    sw_tag[bb] = (ret, m)
+        self._corr = (defs_tag, sw_tag)
+        return self._corr
+
     def reachable_blocks(self, start=0, removed_blocks=(), removed_edges=()):
         """Blocks reachable from `start` (a block or iterable of blocks) on normal paths."""
         removed_blocks = set(removed_blocks)
         removed_edges = set(removed_edges)
         starts = [start] if isinstance(start, int) else list(start)
+        if self.j.get("corr"):
+            return self._reachable_corr(starts, removed_blocks, removed_edges)
         seen = set()
         dq = deque(s for s in starts if s not in removed_blocks)
         seen.update(dq)
@@ -323,6 +375,29 @@ class Body:
                     dq.append(t)
         return seen
 
+    def _reachable_corr(self, starts, removed_blocks, removed_edges):
+        """Reachability over (block, known constructor of an inlined helper's result): infeasible Ok/Err combinations are pruned."""
+        defs_tag, sw_tag = self._corr_tables()
+        seen = set()
+        dq = deque((s, None) for s in starts if s not in removed_blocks)
+        seen.update(dq)
+        while dq:
+            b, tag = dq.popleft()
+            if b in defs_tag:
+                tag = defs_tag[b]
+            for (t, lab) in self.succ(b):
+                if t in removed_blocks or (b, t) in removed_edges or (b, t, lab) in removed_edges:
+                    continue
+                if b in sw_tag and tag is not None and sw_tag[b][0] == tag[0]:
+                    want = sw_tag[b][1].get(lab)
+                    if want is not None and want != tag[1]:
+                        continue
+                st = (t, tag)
+                if st not in seen:
+                    seen.add(st)
+                    dq.append(st)
+        return {b for (b, tag) in seen}
+
     def reach_after(self, bb, removed_blocks=(), removed_edges=()):
         """Blocks reachable strictly after leaving `bb` (bb itself only if on a cycle)."""
         removed_blocks = set(removed_blocks)
@@ -332,7 +407,31 @@ class Body:
             if t in removed_blocks or (bb, t) in removed_edges or (bb, t, lab) in removed_edges:
                 continue
             starts.append(t)
-        return self.reachable_blocks(starts, removed_blocks, removed_edges) if starts else set()
+        if not starts:
+            return set()
+        if self.j.get("corr") and bb in self._corr_tables()[0]:
+            # keep the constructor knowledge established in bb itself
+            defs_tag, sw_tag = self._corr_tables()
+            tag = defs_tag[bb]
+            seen = set()
+            dq = deque((s, tag) for s in starts)
+            seen.update(dq)
+            while dq:
+                b, tg = dq.popleft()
+                if b in defs_tag:
+                    tg = defs_tag[b]
+                for (t, lab) in self.succ(b):
+                    if t in removed_blocks or (b, t) in removed_edges or (b, t, lab) in removed_edges:
+                        continue
+                    if b in sw_tag and tg is not None and sw_tag[b][0] == tg[0]:
+                        want = sw_tag[b][1].get(lab)
+                        if want is not None and want != tg[1]:
+                            continue
+                    if (t, tg) not in seen:
+                        seen.add((t, tg))
+                        dq.append((t, tg))
+            return {b for (b, tg) in seen}
+        return self.reachable_blocks(starts, removed_blocks, removed_edges)
 
     def return_blocks(self):
         return [i for i in self.normal_blocks() if self.blocks[i]["term"]["k"] == "return"]
@@ -700,6 +799,14 @@ def agg_is(e, adt_suffix, variant=None):
 
 # ----------------------------------------------------------------------------- crate / facts
 
+# anchor bodies into which single-caller private helpers are spliced (wrapper tolerance)
+INLINE_ANCHORS = ("xs::store::Store::append", "xs::store::Store::insert_frame", "xs::store::Store::remove")
+# names the repository's own tests pin (never inlined: rules anchor on them)
+PINNED_NAMES = ("xs::store::Store::new", "xs::store::Store::append", "xs::store::Store::read", "xs::store::Store::read_sync", "xs::store::Store::get",
+                "xs::store::Store::head", "xs::store::Store::remove", "xs::store::Store::insert_frame", "xs::store::Store::iter_frames",
+                "xs::store::idx_topic_key_from_frame", "xs::store::idx_context_key_range_end", "xs::store::ttl::parse_ttl")
+
+
 class Crate:
     def __init__(self, path, local_prefix):
         with open(path) as fh:
@@ -727,10 +834,14 @@ class Facts:
         self.lib = Crate(os.path.join(d, "xs-lib.json"), "xs")
         self.bin = Crate(os.path.join(d, "xs-bin.json"), "xsbin")
         self.crates = [self.lib, self.bin]
+        from . import inline
+        self.inlined = inline.apply(self, INLINE_ANCHORS, PINNED_NAMES)
 
     def all_bodies(self):
         for c in self.crates:
-            yield from c.body_list
+            for b in c.body_list:
+                if not b.hidden:
+                    yield b
 
     def body(self, def_):
         for c in self.crates:
